@@ -49,6 +49,7 @@ fn cas_increment(ctx: &Ctx, acc: &Accum, target_ops: u64) -> Option<i32> {
     w0.exec(&Cmd::set(b"n", b"0", 0, 0));
     let successes = Arc::new(AtomicU64::new(0));
     let attempts = Arc::new(AtomicU64::new(0));
+    let misses = Arc::new(AtomicU64::new(0));
     let per_thread = target_ops / THREADS as u64;
     let tokens: Arc<std::sync::Mutex<Vec<u64>>> = Arc::new(std::sync::Mutex::new(vec![]));
     std::thread::scope(|s| {
@@ -56,6 +57,7 @@ fn cas_increment(ctx: &Ctx, acc: &Accum, target_ops: u64) -> Option<i32> {
             let stack = stack.clone();
             let successes = successes.clone();
             let attempts = attempts.clone();
+            let misses = misses.clone();
             let tokens = tokens.clone();
             s.spawn(move || {
                 let mut w = Worker::new(&stack);
@@ -73,6 +75,9 @@ fn cas_increment(ctx: &Ctx, acc: &Accum, target_ops: u64) -> Option<i32> {
                     attempts.fetch_add(1, Ordering::Relaxed);
                     if let Some(r) = w.exec(&Cmd::get(b"n")) {
                         if r.status != 0 {
+                            // the key is stored before the threads start and never deleted, flushed or
+                            // given a TTL: no one-at-a-time ordering contains a miss
+                            misses.fetch_add(1, Ordering::Relaxed);
                             continue;
                         }
                         let v: u64 = std::str::from_utf8(&r.value).ok().and_then(|s| s.parse().ok()).unwrap_or(u64::MAX);
@@ -90,6 +95,15 @@ fn cas_increment(ctx: &Ctx, acc: &Accum, target_ops: u64) -> Option<i32> {
             });
         }
     });
+    let m = misses.load(Ordering::Relaxed);
+    if m > 0 {
+        return Some(violation(
+            ctx,
+            "present_key_missed",
+            format!("{} threads ran get / cas-set loops on a key that was stored beforehand and is never deleted, flushed or expiring: {} of {} retrievals were answered with a non-zero status (miss) - no one-at-a-time ordering of gets and stores contains a miss", THREADS, m, attempts.load(Ordering::Relaxed)),
+            json!({"scenario": "cas_increment", "misses": m}),
+        ));
+    }
     // every acknowledged store of the hot key carries a token the key never carried before
     {
         let mut t = tokens.lock().unwrap().clone();
@@ -322,7 +336,45 @@ fn rmw(ctx: &Ctx, acc: &Accum, per_thread: u64, add_rounds: u64) -> Option<i32> 
     let mut w0 = Worker::new(&stack);
     w0.exec(&Cmd::set(b"c", b"0", 3, 0));
     w0.exec(&Cmd::set(b"l", b"", 4, 0));
+    // neighbour traffic: stores to a few other keys for as long as the workers run, so that the map shard
+    // of the hot keys is write-locked by commands on *other* keys at arbitrary instants (the map is kept
+    // small on purpose: what counts is how often the hot shard's lock is taken, not for how long)
+    let nb_stop = Arc::new(AtomicBool::new(false));
+    let t_rmw = Instant::now();
     let results: Vec<Vec<u64>> = std::thread::scope(|s| {
+        for t in 0..4usize {
+            let (stack, nb_stop) = (stack.clone(), nb_stop.clone());
+            s.spawn(move || {
+                let mut w = Worker::new(&stack);
+                let mut i = 0usize;
+                while !nb_stop.load(Ordering::Relaxed) {
+                    let key = format!("nb{}_{}", t, i % 64).into_bytes();
+                    w.exec(&Cmd::set(&key, b"neighbour", 0, 0));
+                    i += 1;
+                }
+            });
+        }
+        // ... and delayed flushes (deadline a million seconds away on a clock that stands still): each one
+        // takes the write lock of every shard of the map in turn
+        for _ in 0..6usize {
+            let (stack, nb_stop) = (stack.clone(), nb_stop.clone());
+            s.spawn(move || {
+                let mut w = Worker::new(&stack);
+                let mut n = 0u64;
+                while !nb_stop.load(Ordering::Relaxed) {
+                    let mut f = Cmd::new(Kind::Flush, &[]);
+                    f.ttl = 1_000_000;
+                    let r = w.exec(&f);
+                    n += 1;
+                    if n == 1 && std::env::var("VERIF_DEBUG").is_ok() {
+                        eprintln!("first flush -> {:?}", r.map(|r| r.status));
+                    }
+                }
+                if std::env::var("VERIF_DEBUG").is_ok() {
+                    eprintln!("flushes: {}", n);
+                }
+            });
+        }
         let hs: Vec<_> = (0..THREADS)
             .map(|t| {
                 let stack = stack.clone();
@@ -349,9 +401,14 @@ fn rmw(ctx: &Ctx, acc: &Accum, per_thread: u64, add_rounds: u64) -> Option<i32> 
                 })
             })
             .collect();
-        hs.into_iter().map(|h| h.join().unwrap()).collect()
+        let r = hs.into_iter().map(|h| h.join().unwrap()).collect();
+        nb_stop.store(true, Ordering::SeqCst);
+        r
     });
     let total_ops = THREADS as u64 * per_thread;
+    if std::env::var("VERIF_DEBUG").is_ok() {
+        eprintln!("rmw: {} incr ops, {} acknowledged, wall {:?}", total_ops, results.iter().map(|r| r.len()).sum::<usize>(), t_rmw.elapsed());
+    }
     acc.count("stress_incr_ops", total_ops);
     acc.evaluations.fetch_add(total_ops, Ordering::Relaxed);
     let fin = w0.exec(&Cmd::get(b"c"));
@@ -401,6 +458,18 @@ fn rmw(ctx: &Ctx, acc: &Accum, per_thread: u64, add_rounds: u64) -> Option<i32> 
     let wins = Arc::new(AtomicU64::new(0));
     let mut bad: Option<(u64, u64)> = None;
     std::thread::scope(|s| {
+        for t in 0..4usize {
+            let (stack, stop) = (stack.clone(), stop.clone());
+            s.spawn(move || {
+                let mut w = Worker::new(&stack);
+                let mut i = 0usize;
+                while !stop.load(Ordering::Relaxed) {
+                    let key = format!("nb{}_{}", t, i % 512).into_bytes();
+                    w.exec(&Cmd::set(&key, b"neighbour", 0, 0));
+                    i += 1;
+                }
+            });
+        }
         for t in 0..THREADS {
             let (stack, barrier, stop, wins) = (stack.clone(), barrier.clone(), stop.clone(), wins.clone());
             s.spawn(move || {
@@ -443,6 +512,101 @@ fn rmw(ctx: &Ctx, acc: &Accum, per_thread: u64, add_rounds: u64) -> Option<i32> 
             "add_winners",
             format!("round {}: {} of {} concurrent adds of an absent key succeeded (exactly one must)", round, wv, THREADS),
             json!({"scenario": "add_race", "round": round}),
+        ));
+    }
+    None
+}
+
+/// C04: every thread increments a counter of its own (no two threads ever touch the same key) while other
+/// connections keep a large map busy with delayed flushes, which hold each shard's write lock for as long as
+/// it takes to re-stamp the thousands of records in it. Whatever a command on another key holds at that
+/// moment, each counter must receive every one of its increments and nothing else.
+fn rmw_private(ctx: &Ctx, acc: &Accum, per_thread: u64, filler: usize) -> Option<i32> {
+    let stack = Arc::new(Stack::new(Policy::None));
+    let mut w0 = Worker::new(&stack);
+    for i in 0..filler {
+        w0.exec(&Cmd::set(format!("fill{}", i).as_bytes(), b"filler", 0, 0));
+    }
+    for t in 0..THREADS {
+        w0.exec(&Cmd::set(format!("own{}", t).as_bytes(), b"0", 5, 0));
+        w0.exec(&Cmd::set(format!("log{}", t).as_bytes(), b"", 6, 0));
+    }
+    let stop = Arc::new(AtomicBool::new(false));
+    let flushes = Arc::new(AtomicU64::new(0));
+    let bad: Vec<Option<String>> = std::thread::scope(|s| {
+        for _ in 0..2usize {
+            let (stack, stop, flushes) = (stack.clone(), stop.clone(), flushes.clone());
+            s.spawn(move || {
+                let mut w = Worker::new(&stack);
+                while !stop.load(Ordering::Relaxed) {
+                    let mut f = Cmd::new(Kind::Flush, &[]);
+                    f.ttl = 1_000_000;
+                    w.exec(&f);
+                    flushes.fetch_add(1, Ordering::Relaxed);
+                }
+            });
+        }
+        let hs: Vec<_> = (0..THREADS)
+            .map(|t| {
+                let stack = stack.clone();
+                s.spawn(move || -> Option<String> {
+                    let mut w = Worker::new(&stack);
+                    let key = format!("own{}", t).into_bytes();
+                    let logk = format!("log{}", t).into_bytes();
+                    for i in 0..per_thread {
+                        let mut c = Cmd::new(Kind::Incr, &key);
+                        c.delta = 1;
+                        c.initial = 1_000_000;
+                        let r = w.exec(&c);
+                        let got = r.as_ref().filter(|r| r.status == 0 && r.value.len() == 8).map(|r| {
+                            let mut b = [0u8; 8];
+                            b.copy_from_slice(&r.value);
+                            u64::from_be_bytes(b)
+                        });
+                        if got != Some(i + 1) {
+                            return Some(format!(
+                                "increment #{} of counter {} (touched by this connection only, starting at 0) answered {:?} (status {:?}) instead of {}",
+                                i + 1,
+                                String::from_utf8_lossy(&key),
+                                got,
+                                r.as_ref().map(|r| r.status),
+                                i + 1
+                            ));
+                        }
+                        if i % 16 == 0 {
+                            // add on a key that exists must be refused, whatever else is going on
+                            let mut a = Cmd::set(&key, b"999", 0, 0);
+                            a.kind = Kind::Add;
+                            if let Some(r) = w.exec(&a) {
+                                if r.status == 0 {
+                                    return Some(format!("add on the existing counter {} succeeded (it overwrote the counter)", String::from_utf8_lossy(&key)));
+                                }
+                            }
+                            let mut ap = Cmd::new(Kind::Append, &logk);
+                            ap.value = b"x".to_vec();
+                            match w.exec(&ap) {
+                                Some(r) if r.status == 0 => {}
+                                other => return Some(format!("append to the existing item {} answered {:?}", String::from_utf8_lossy(&logk), other.map(|r| r.status))),
+                            }
+                        }
+                    }
+                    None
+                })
+            })
+            .collect();
+        let r = hs.into_iter().map(|h| h.join().unwrap()).collect();
+        stop.store(true, Ordering::SeqCst);
+        r
+    });
+    acc.count("stress_private_incr_ops", THREADS as u64 * per_thread);
+    acc.count("stress_private_flushes_meanwhile", flushes.load(Ordering::Relaxed));
+    acc.evaluations.fetch_add(THREADS as u64 * per_thread, Ordering::Relaxed);
+    if let Some(m) = bad.into_iter().flatten().next() {
+        return Some(violation(
+            ctx,
+            "private_counter_disturbed",
+            format!("{} connections each incrementing a counter of their own while 2 others issue delayed flushes over a map of {} records: {}", THREADS, filler, m),
+            json!({"scenario": "rmw_private", "filler": filler}),
         ));
     }
     None
@@ -732,6 +896,67 @@ fn accounting_concurrent(ctx: &Ctx, acc: &Accum, rounds: u64) -> Option<i32> {
     None
 }
 
+/// C15: many connections read the same just-expired item at once (racing its lazy collection) under a limit
+/// that is never approached; afterwards every resident item must still be there, whatever is stored next.
+/// (Known finding K4 only ever over-counts by the expired bytes: 4 KiB a round against a 1 GiB limit.)
+fn expired_readers_concurrent(ctx: &Ctx, acc: &Accum, rounds: u64) -> Option<i32> {
+    let stack = Arc::new(Stack::new(Policy::Random(1 << 30)));
+    let mut w0 = Worker::new(&stack);
+    for i in 0..8 {
+        w0.exec(&Cmd::set(format!("res{}", i).as_bytes(), b"resident", 0, 0));
+    }
+    const READERS: usize = 6;
+    let barrier = Arc::new(Barrier::new(READERS + 1));
+    let lost: Arc<std::sync::Mutex<Option<(u64, usize)>>> = Arc::new(std::sync::Mutex::new(None));
+    let stop = Arc::new(AtomicBool::new(false));
+    std::thread::scope(|s| {
+        for _ in 0..READERS {
+            let (stack, barrier, stop) = (stack.clone(), barrier.clone(), stop.clone());
+            s.spawn(move || {
+                let mut w = Worker::new(&stack);
+                loop {
+                    barrier.wait();
+                    if stop.load(Ordering::SeqCst) {
+                        return;
+                    }
+                    w.exec(&Cmd::get(b"shortlived"));
+                    barrier.wait();
+                }
+            });
+        }
+        let mut w1 = Worker::new(&stack);
+        for round in 0..rounds {
+            w1.exec(&Cmd::set(b"shortlived", &vec![b's'; 4096], 0, 1));
+            stack.timer.add(2);
+            barrier.wait();
+            barrier.wait();
+            // the next store of any key must not evict anything: the limit is a million times the content
+            w1.exec(&Cmd::set(b"next", b"n", 0, 0));
+            for i in 0..8usize {
+                if stack.physical_len(format!("res{}", i).as_bytes()).is_none() {
+                    *lost.lock().unwrap() = Some((round, i));
+                }
+            }
+            if lost.lock().unwrap().is_some() {
+                break;
+            }
+        }
+        stop.store(true, Ordering::SeqCst);
+        barrier.wait();
+    });
+    acc.evaluations.fetch_add(rounds * READERS as u64, Ordering::Relaxed);
+    acc.count("stress_expired_readers_rounds", rounds);
+    if let Some((round, i)) = *lost.lock().unwrap() {
+        return Some(violation(
+            ctx,
+            "live_item_lost_concurrent",
+            format!("round {}: after {} connections read the same expired 4 KiB item at once, the next store evicted resident item res{} although a few KiB are stored under a 1 GiB limit (accounted usage now {:?})", round, READERS, i, stack.usage().map(|u| u as i64)),
+            json!({"scenario": "expired_readers_concurrent", "round": round}),
+        ));
+    }
+    None
+}
+
 /// C04 at the socket: a server with three listener threads (memcrsd's current-thread structure),
 /// six connections pipelining increments of one counter and appends to one item.
 fn rmw_over_tcp(ctx: &Ctx, acc: &Accum, per_client: usize) -> Option<i32> {
@@ -833,9 +1058,9 @@ pub fn phase(ctx: &Ctx, acc: &Accum, prop: &str) -> Option<i32> {
             .or_else(|| same_token_rounds(ctx, acc, if q { 300 } else { 5000 }))
             .or_else(|| expired_restore(ctx, acc, if q { 300 } else { 5000 }))
             .or_else(|| absent_cas_vs_plain(ctx, acc, if q { 60_000 } else { 1_500_000 })),
-        "C04" => rmw(ctx, acc, if q { 2_000 } else { 20_000 }, if q { 200 } else { 3000 }).or_else(|| rmw_over_tcp(ctx, acc, if q { 400 } else { 4000 })),
+        "C04" => rmw(ctx, acc, if q { 6_000 } else { 40_000 }, if q { 200 } else { 3000 }).or_else(|| rmw_private(ctx, acc, if q { 40_000 } else { 400_000 }, if q { 100_000 } else { 300_000 })).or_else(|| rmw_over_tcp(ctx, acc, if q { 400 } else { 4000 })),
         "C16" => progress(ctx, acc, if q { 4 } else { 30 }),
-        "C15" => accounting_concurrent(ctx, acc, if q { 3000 } else { 60_000 }),
+        "C15" => accounting_concurrent(ctx, acc, if q { 3000 } else { 60_000 }).or_else(|| expired_readers_concurrent(ctx, acc, if q { 1500 } else { 30_000 })),
         "C14" => eviction_bound(ctx, acc, if q { 3 } else { 60 }).or_else(|| expiry_concurrent(ctx, acc, if q { 40 } else { 800 })),
         _ => None,
     };
